@@ -72,7 +72,7 @@ RULE = ("problems: 0-40 vertices (0-3 units of 1-3 resources, some needing nothi
         "clause; a small out-of-domain stream (correspondence only). Each problem is run through sequential (default and "
         "custom orders), breadth-first, Hilbert (both modes), RCM, random, annealing with the Python kernel (recorded "
         "step by step) and the C kernel. A case is non-trivial when at least one placer returned a placement of >= 2 "
-        "vertices on a machine with >= 2 working chips and the problem has at least one constraint; plus whole anneals (unbounded "
+        "vertices on a machine with >= 2 working chips and the problem has at least one constraint; plus two (thorough: four) unplaceable chains of 300-1500 pairwise same-chip constraints; plus whole anneals (unbounded "
         "number of temperatures) of one net of weight 100 among a ring of nets of weight 0.01 on machines 8x8..12x12 "
         "(thorough: up to 24x24, 62 vertices)")
 
@@ -975,6 +975,28 @@ def gen_hetero(rng, size, ring):
             "hilbert_bf": rng.random() < 0.5, "unit_r0": 0})
 
 
+def gen_chain(rng, depth):
+    """depth + 1 one-unit vertices chained by pairwise same-chip constraints (the merged vertices nest that deep) on a
+    machine whose chips hold `depth` units: unplaceable, and the only acceptable outcome is InsufficientResourceError
+    (finding F24: the error message naming the nested MergedVertex raised RecursionError)"""
+    n = depth + 1
+    w, h = rng.choice([(2, 2), (1, 3), (3, 1)])
+    working = [(x, y) for x in range(w) for y in range(h)]
+    cs = [{"t": "same", "vs": [v, v + 1]} for v in range(depth)]
+    if rng.random() < 0.5:
+        cs.append({"t": "res", "r": 0, "amt": 1, "c": None})
+    vo = list(range(n))
+    rng.shuffle(vo)
+    prob = {"w": w, "h": h, "res": [depth + (1 if len(cs) > depth else 0)], "exc": [], "dead": [],
+            "vr": [[v, [1], [True]] for v in range(n)], "nets": [[v, [(v + 7) % n], 1] for v in range(0, n, 5)], "cs": cs,
+            "ood": False, "unit": False, "vo": vo, "co": [list(c) for c in working],
+            "seeds": [rng.randrange(2 ** 30) for _ in range(4)], "effort": 0.1, "max_temps": 2,
+            "hilbert_bf": rng.random() < 0.5, "unit_r0": None, "twist": "unplaceable-chain"}
+    c02_names.draw(rng, prob)
+    c02_variants.draw(rng, prob)
+    return prob
+
+
 from harness import c02_orders
 from harness import c02_kernel
 from harness import c02_sessions
@@ -1022,6 +1044,10 @@ def run(ctx):
     for prob in hetero:
         ctx.tag("hetero-weights-problem")
         eval_problems(ctx, [prob])
+    # same-chip chains deeper than the interpreter's recursion limit allows to print recursively, unplaceable
+    for depth in ([rng.choice([300, 340, 400]), rng.choice([350, 450])] if ctx.quick else
+                  [320, rng.choice([400, 600]), rng.choice([800, 1100]), 1500]):
+        eval_problems(ctx, [gen_chain(rng, depth)])
     c02_kernel.run_kernel(ctx)
     c02_sessions.run_sessions(ctx)
     c02_harden.run_harden(ctx)
